@@ -73,12 +73,11 @@ Proof.
       rewrite (match_here_error pw w1 n w2 _ Hi H1 H2), (with_index_none _ _ _ rest Hr). rewrite Nat.add_0_r. reflexivity.
     + cbn [mlen String.length]. rewrite !length_app_s. cbn [String.length]. lia.
   - (* NAME blanks ( *)
-    apply andb_true_iff in H as [H Hp]. apply andb_true_iff in H as [H Hw]. apply andb_true_iff in H as [Hi Hk].
-    apply negb_true_iff, in_kw_false in Hk. cbn [app].
+    apply andb_true_iff in H as [H Hp]. apply andb_true_iff in H as [Hi Hw]. cbn [app].
     destruct rest as [|c rest']; [discriminate Hp|]. cbn [head_is] in Hp. apply Ascii.eqb_eq in Hp. subst c.
     apply scan_tok.
     + intros E. destruct n; [discriminate Hi|discriminate E].
-    + rewrite app_assoc_s. apply match_here_function; assumption.
+    + rewrite app_assoc_s. apply match_here_function_dotted; assumption.
     + cbn [mlen]. rewrite length_app_s. reflexivity.
   - (* keyword *)
     apply andb_true_iff in H as [H Hb]. apply andb_true_iff in H as [H Hr]. apply andb_true_iff in H as [Hp Hk].
